@@ -56,7 +56,7 @@ PROPS["C07"] = dict(
     title="Output is well-formed, identity-unique, free of bookkeeping, and a fixpoint",
     modules=["Kust.Props.C07", "Kust.Props.C13"],
     theorems=["Kust.C13.emit_read_back", "Kust.C07.out_ids_unique", "Kust.C07.append_refuses_duplicate", "Kust.C07.out_has_kind_name", "Kust.C07.renaming_never_panics",
-              "Kust.C07.strip_removes", "Kust.C07.strip_keeps", "Kust.C07.annotation_keys_covered", "Kust.C07.core_keys_stripped"],
+              "Kust.C07.strip_removes", "Kust.C07.strip_keeps", "Kust.C07.strip_idem", "Kust.C07.strip_sublist", "Kust.C07.strip_clean", "Kust.C07.strip_id_of_clean", "Kust.C07.annotation_keys_covered", "Kust.C07.core_keys_stripped"],
     components=["res.append", "res.layers", "kio.emit"],
     oracle=True,
     n_corr={"quick": 3000, "thorough": 30000}, n_oracle={"quick": 300, "thorough": 4000},
